@@ -190,7 +190,10 @@ def judge(run, events_path, prop, name=None, timeout=1800, heap="6g", consts=Non
     run.trace_events += n
     run.states += dist
     run.transitions += gen
-    return tagged(lines, "MISMATCH"), tagged(lines, "INFO")
+    mm = tagged(lines, "MISMATCH")
+    for m in mm:
+        m["_trace"] = events_path
+    return mm, tagged(lines, "INFO")
 
 # ---------------------------------------------------------------- universes
 def universe(run, ecos=None):
@@ -274,6 +277,60 @@ def open_findings(prop):
     return [f["id"] for f in findings() if f["kind"] == "finding" and f.get("property") == prop]
 
 # ---------------------------------------------------------------- verdict
+def locate(trace, evidx):
+    """the recorded event that produced a mismatch and the job line it came from (for replay)"""
+    if not trace or not evidx or not os.path.exists(trace):
+        return None, None
+    event = None
+    with open(trace) as f:
+        for i, line in enumerate(f, 1):
+            if i == evidx:
+                event = json.loads(line); break
+    if event is None:
+        return None, None
+    if event.get("k") == "cli":
+        return {"k": "cli", "runs": [{"tag": event.get("tag", ""), "argv": event["argv"]}]}, shrink(event)
+    jobs = trace.replace("/ev", "/jobs") if "/ev" in os.path.basename("/" + os.path.basename(trace)) else None
+    jp = os.path.join(os.path.dirname(trace), os.path.basename(trace).replace("ev", "jobs", 1))
+    job = None
+    if os.path.exists(jp) and jp != trace:
+        lines = [l for l in open(jp) if l.strip()]
+        # job lines and event lines correspond 1:1 unless a job expands into several events (cli, total)
+        cand = [json.loads(l) for l in lines]
+        if len(cand) >= evidx and all(c.get("k") not in ("cli", "total") for c in cand[:evidx]):
+            job = cand[evidx - 1]
+    if job is None and event.get("k") == "total":
+        job = {"k": "total", "tag": event.get("tag", ""), "inputs": [event["bytes"]]} if event.get("n", 0) <= 64 else None
+    return job, shrink(event)
+
+def shrink(ev):
+    s = json.dumps(ev)
+    return ev if len(s) < 200000 else {"k": ev.get("k"), "note": "event too large to embed (%d bytes)" % len(s)}
+
+def replay_generic(d):
+    """re-execute the recorded job against the current tree and let TLC judge it again"""
+    pid = d["property"]
+    job = d.get("job")
+    if not job:
+        log("replay file has no job; case: " + json.dumps(d.get("case"))[:400]); return 2
+    run = Run(pid, "quick")
+    try:
+        exe = build_harness(run, race=False)
+        env = {"VERIF_CLI": build_cli(run)} if job.get("k") == "cli" else None
+        jp, ep = run.path("replay.jobs"), run.path("replay.ev")
+        write_ndjson(jp, [job]); run_harness(run, exe, jp, ep, env=env)
+        mm, info = judge(run, ep, pid, name="replay")
+        viol = [m for m in mm if not m.get("known")]
+        for m in mm:
+            m.pop("_trace", None)
+            log(("KNOWN " if m.get("known") else "VIOLATION-DETAIL ") + json.dumps(m)[:600])
+        log("replay %s: %d violating observation(s)" % (pid, len(viol)))
+        return 1 if viol else 0
+    except Infra as e:
+        log("INFRA: %s" % e); return 2
+    finally:
+        run.cleanup()
+
 def finish(run, level="model_checking", rule="", exhaustive=False, judged=None, min_judged=1):
     """Write evidence, print verdict lines, return the exit code."""
     wall = time.time() - run.t0
@@ -310,8 +367,10 @@ def finish(run, level="model_checking", rule="", exhaustive=False, judged=None, 
         # group violations into at most 5 replay files
         for i, v in enumerate(run.violations[:5]):
             rp = os.path.join(rdir, "%s-%d.json" % (run.pid, i))
+            v = dict(v)
+            job, event = locate(v.pop("_trace", None), v.get("evidx"))
             with open(rp, "w") as f:
-                json.dump({"property": run.pid, "tier": run.tier, "seed": run.seed, "case": v}, f, indent=1)
+                json.dump({"property": run.pid, "tier": run.tier, "seed": run.seed, "case": v, "job": job, "event": event}, f, indent=1)
             log("VIOLATION property=%s replay=%s" % (run.pid, rp))
             log("  detail: " + json.dumps(v)[:600])
         if len(run.violations) > 5:
